@@ -171,9 +171,36 @@ def _alt_forms(kwargs, seed):
     return out
 
 
-def build_components(spec, tmpdir=None):
+class _Pooled:
+    """stands in for the rtflite module while a document with "prior" documents is built: a component class
+    called with keyword arguments equal to an earlier call's returns the SAME object (a caller who keeps one
+    `header = RTFColumnHeader()`, one footnote, one body and builds several documents from them)"""
+
+    def __init__(self, rtf, pool):
+        self._rtf, self._pool = rtf, pool
+
+    def __getattr__(self, name):
+        cls = getattr(self._rtf, name)
+        if not (isinstance(cls, type) and name.startswith("RTF") and name != "RTFDocument"):
+            return cls
+        import json
+
+        def make(**kwargs):
+            try:
+                key = (name, json.dumps(kwargs, sort_keys=True, default=repr))
+            except Exception:  # noqa
+                return cls(**kwargs)
+            if key not in self._pool:
+                self._pool[key] = cls(**kwargs)
+            return self._pool[key]
+        return make
+
+
+def build_components(spec, tmpdir=None, pool=None):
     """-> dict of keyword arguments for RTFDocument (objects constructed)."""
     import rtflite as rtf
+    if pool is not None:
+        rtf = _Pooled(rtf, pool)
     kw = {}
     forms = spec.get("_forms", 0)
     _SHARED_ARGS.clear()
@@ -267,8 +294,22 @@ def lifecycle(doc, forms):
 
 
 def build(spec, tmpdir=None):
+    """"prior": [spec, ...] - documents built (from one pool of component objects, see _Pooled) and encoded
+    before this one in the same process; what they raise is their own business"""
     import rtflite as rtf
-    doc = rtf.RTFDocument(**build_components(spec, tmpdir))
+    pool = None
+    if spec.get("prior"):
+        import contextlib
+        import io
+        pool = {}
+        for p in spec["prior"]:
+            try:
+                d = rtf.RTFDocument(**build_components(p, tmpdir, pool))
+                with contextlib.redirect_stdout(io.StringIO()):
+                    d.rtf_encode()
+            except Exception:  # noqa
+                pass
+    doc = rtf.RTFDocument(**build_components(spec, tmpdir, pool))
     return apply_post(lifecycle(doc, spec.get("_forms", 0)), spec)
 
 
